@@ -1172,6 +1172,68 @@ class Engine:
                 return
         self.write_field(st, obj, attr, v)
 
+    FRESH_CALLS = {'list', 'dict', 'defaultdict', 'OrderedDict', 'sorted', 'set', 'tuple', 'deepcopy', 'copy'}
+
+    def alias_names(self):
+        """Local names of the current function that may be bound to a container owned by someone else (a parameter,
+        an element or field of another object, a loop target, the result of an arbitrary call).  Containers are
+        modelled as VALUES: an in-place mutation through such a name would be lost, so it is refused."""
+        fr = self.frames[-1]
+        node = fr.fi.node if fr.fi is not None else None
+        if node is None:
+            return set()
+        cache = fr.__dict__.setdefault('_alias_names', None)
+        if cache is not None:
+            return cache
+        owned, alias = set(), set()
+
+        def fresh(v):
+            if isinstance(v, (ast.List, ast.Dict, ast.ListComp, ast.DictComp, ast.SetComp, ast.Set, ast.Tuple, ast.Constant)):
+                return True
+            if isinstance(v, ast.BinOp):
+                return True
+            if isinstance(v, ast.Call):
+                f = v.func
+                name = f.id if isinstance(f, ast.Name) else (f.attr if isinstance(f, ast.Attribute) else '')
+                if name in self.FRESH_CALLS:
+                    return True
+                # a repository function whose contract states that it returns a newly built container
+                return any(c_.fresh_result and k_.split('#')[0].rsplit('.', 1)[-1].split(':')[-1] == name
+                           for k_, c_ in REGISTRY.items())
+            return False
+
+        def bind(t, is_fresh):
+            for x in ast.walk(t):
+                if isinstance(x, ast.Name) and isinstance(x.ctx, ast.Store):
+                    (owned if is_fresh else alias).add(x.id)
+        a = node.args if hasattr(node, 'args') else None
+        if a is not None:
+            for p in list(a.posonlyargs) + list(a.args) + list(a.kwonlyargs) + ([a.vararg] if a.vararg else []) + ([a.kwarg] if a.kwarg else []):
+                alias.add(p.arg)
+        for n_ in ast.walk(node):
+            if isinstance(n_, ast.Assign):
+                for t in n_.targets:
+                    if isinstance(t, ast.Name):
+                        bind(t, fresh(n_.value))
+                    elif isinstance(t, (ast.Tuple, ast.List)):
+                        bind(t, False)
+            elif isinstance(n_, ast.AnnAssign) and n_.value is not None and isinstance(n_.target, ast.Name):
+                bind(n_.target, fresh(n_.value))
+            elif isinstance(n_, (ast.For, ast.comprehension)):
+                bind(n_.target, False)
+            elif isinstance(n_, ast.With):
+                for it in n_.items:
+                    if it.optional_vars is not None:
+                        bind(it.optional_vars, False)
+        fr.__dict__['_alias_names'] = alias
+        return alias
+
+    def refuse_alias_mutation(self, target, val_kind, what):
+        if isinstance(target, ast.Name) and isinstance(val_kind, (KList, KDict)) and not self.spec_mode \
+                and not target.id.startswith('__comp') and target.id in self.alias_names():
+            raise Unsupported(f'{what} of a container through the local name `{target.id}` that may alias another object '
+                              f'(containers are modelled as values)')
+
     def assign_subscript(self, t: ast.Subscript, v: V, st: State):
         """container[k] = v with value semantics: write back through the l-value path."""
         # dst.transpose(0, 1)[i0, i1] = v : a write through the transposed view of dst
@@ -1187,6 +1249,7 @@ class Engine:
         if self.T.is_tensor(cont):
             self.T.tensor_setitem(self, st, cont, t.slice, v)
             return
+        self.refuse_alias_mutation(t.value, cont.kind, 'item assignment')
         k = self.eval(t.slice, st)
         if st.dead:
             return
@@ -2755,6 +2818,7 @@ class Engine:
             if not isinstance(e.func, ast.Attribute):
                 raise Unsupported('mutation through non-attribute call')
             if isinstance(e.func.value, (ast.Name, ast.Attribute, ast.Subscript)):
+                self.refuse_alias_mutation(e.func.value, res.meta.new.kind, f'in-place .{e.func.attr}()')
                 self.write_back(e.func.value, res.meta.new, st)
             # else: the receiver is a temporary; the mutated container is dropped
             return res.meta.result
